@@ -1,6 +1,8 @@
 package world
 
 import (
+	"time"
+	"verifsim/simrt"
 	"fmt"
 	"strings"
 
@@ -389,6 +391,11 @@ func genC13(g *Gen, idx int) *Plan {
 		p.Cfg.ShutdownAtMs = at
 	case "disconnect":
 		sg.add(refsn.Pkt{Type: refsn.DISCONNECT})
+		if g.Bool(0.6) {
+			// the broker closes its side as soon as it sees the MQTT DISCONNECT: a gateway that is slow right
+			// then handles the EOF while the client's DISCONNECT is still being served
+			p.Cfg.Sched = simrt.SchedCfg{Density: 0.3 + g.Float()*0.7, Overlap: true, StallProb: 0.25, MaxStall: 5 * time.Millisecond, MaxStalls: 60}
+		}
 	case "fin", "rst":
 		p.Broker.Faults = []BrokerFault{{AtMs: at, Kind: ck}}
 	case "garbage":
